@@ -16,6 +16,7 @@ use std::collections::HashMap;
 use std::sync::mpsc;
 use std::sync::Arc;
 use std::thread::JoinHandle;
+use std::time::{Duration, Instant};
 use util::emit;
 
 fn usage() -> i32 {
@@ -35,39 +36,64 @@ fn main() {
 }
 
 // ---------------------------------------------------------------------------
-// Worker threads of the program language (`thread <id> <op…> [&]`)
+// Executor threads
 // ---------------------------------------------------------------------------
+//
+// Every operation runs on an executor thread, never on the process main
+// thread, which only reads the program, dispatches lines and prints results:
+//
+// * `thread <id> <op…> [&]` lines run on the executor named `<id>`;
+// * all other lines run on a hidden executor that stands in for "the main
+//   thread" of the program (it is the one pause points ignore).
+//
+// The dispatcher waits for the reply of a synchronous line, but only for
+// `FJV_SYNC_TIMEOUT_MS` (default 30 s). If an operation blocks for longer — a
+// program-level deadlock such as waiting for a lock that only a later line
+// would release — the line's result is `err timeout` and the program goes on,
+// so one blocked call does not swallow all later observations. The late result
+// of the blocked operation is discarded.
 
-/// One line to run on a named worker thread.
+/// Name of the hidden executor for ordinary (non-`thread`) lines. Cannot
+/// clash with a program-chosen id because ids never contain spaces.
+const MAIN_ID: &str = "main thread";
+
+/// One line to run on an executor thread.
 struct Job {
     lineno: usize,
     toks: Vec<String>,
-    /// `Some` = synchronous (main waits for the reply and prints it);
-    /// `None` = asynchronous (the worker prints the result line itself).
+    /// `Some` = synchronous (the dispatcher waits for the reply and prints it);
+    /// `None` = asynchronous (the executor prints the result line itself).
     reply: Option<mpsc::Sender<String>>,
 }
 
-struct Worker {
+struct Executor {
     jobs: mpsc::Sender<Job>,
     handle: JoinHandle<()>,
 }
 
-/// The named worker threads. They own nothing: all interpreter state lives in
-/// the shared [`Interp`]. Jobs of one thread run in submission order.
-struct Workers {
+/// The executor threads. They own nothing: all interpreter state lives in the
+/// shared [`Interp`]. Jobs of one executor run in submission order.
+struct Executors {
     interp: Arc<Interp>,
-    by_id: HashMap<String, Worker>,
+    by_id: HashMap<String, Executor>,
+    /// Stand-ins for the main thread that were given up on after a timeout.
+    abandoned: Vec<JoinHandle<()>>,
+    sync_timeout: Duration,
 }
 
-impl Workers {
+impl Executors {
     fn submit(&mut self, id: &str, job: Job) {
         let interp = &self.interp;
         let w = self.by_id.entry(id.to_string()).or_insert_with(|| {
             let (tx, rx) = mpsc::channel::<Job>();
             let interp = interp.clone();
+            let is_main = id == MAIN_ID;
             let handle = std::thread::Builder::new()
                 .name(format!("fjv:{id}"))
                 .spawn(move || {
+                    if is_main {
+                        pause::mark_main_thread();
+                    }
                     for job in rx {
                         let toks: Vec<&str> = job.toks.iter().map(String::as_str).collect();
                         let res = interp.exec(&toks, job.reply.is_none());
@@ -79,29 +105,90 @@ impl Workers {
                         }
                     }
                 })
-                .expect("cannot spawn worker thread");
-            Worker { jobs: tx, handle }
+                .expect("cannot spawn executor thread");
+            Executor { jobs: tx, handle }
         });
         // The receiver only goes away when the thread died, which `exec`
         // (it catches panics) does not let happen.
         let _ = w.jobs.send(job);
     }
 
+    /// Runs one line synchronously on executor `id`; `None` = timed out.
+    fn run_sync(&mut self, id: &str, lineno: usize, toks: &[&str]) -> Option<String> {
+        let (tx, rx) = mpsc::channel();
+        self.submit(
+            id,
+            Job {
+                lineno,
+                toks: toks.iter().map(|s| (*s).to_string()).collect(),
+                reply: Some(tx),
+            },
+        );
+        match rx.recv_timeout(self.sync_timeout) {
+            Ok(r) => Some(r),
+            Err(mpsc::RecvTimeoutError::Disconnected) => Some("panic executor_died".into()),
+            Err(mpsc::RecvTimeoutError::Timeout) => {
+                if id == MAIN_ID {
+                    // The stand-in for the main thread is stuck inside a call.
+                    // Leave it behind (it ends once the call returns, because
+                    // its job channel is closed now) and continue on a fresh one.
+                    if let Some(w) = self.by_id.remove(id) {
+                        drop(w.jobs);
+                        self.abandoned.push(w.handle);
+                    }
+                }
+                // A named thread keeps its identity: later lines for it queue
+                // up behind the blocked operation.
+                None
+            }
+        }
+    }
+
     /// Waits for all outstanding (asynchronous) operations.
-    fn finish(self) {
-        let Workers { interp, by_id } = self;
-        let mut handles = vec![];
+    ///
+    /// Normally every thread simply drains its queue and ends. Two safety nets
+    /// keep a sloppy program from hanging the harness forever: pause points
+    /// still held are released, and if threads are still stuck after the
+    /// timeout (e.g. blocked on the single-writer lock of a transaction the
+    /// program never finished) the interpreter state is torn down, which rolls
+    /// back open transactions. Returns false if threads are stuck even then.
+    fn finish(self) -> bool {
+        let Executors {
+            interp,
+            by_id,
+            abandoned,
+            sync_timeout,
+        } = self;
+        let mut handles = abandoned;
         for (_, w) in by_id {
             drop(w.jobs); // closes the channel → the thread ends after its queue
             handles.push(w.handle);
         }
-        // Make sure nothing stays parked at a pause point forever.
-        // (Programs are expected to release what they hold; this is a safety net
-        // that only kicks in after every program line has been issued.)
         interp.pauses().release_all();
+        if !wait_finished(&handles, sync_timeout) {
+            interp.shutdown();
+            if !wait_finished(&handles, sync_timeout) {
+                return false;
+            }
+        }
         for h in handles {
             let _ = h.join();
         }
+        true
+    }
+}
+
+/// Polls until all threads have ended or `patience` ran out.
+fn wait_finished(handles: &[JoinHandle<()>], patience: Duration) -> bool {
+    let deadline = Instant::now() + patience;
+    loop {
+        if handles.iter().all(JoinHandle::is_finished) {
+            return true;
+        }
+        if Instant::now() >= deadline {
+            return false;
+        }
+        std::thread::sleep(Duration::from_millis(1));
     }
 }
 
@@ -135,12 +222,20 @@ fn run(program: &str, dir: &str) -> i32 {
         eprintln!("fjv: caught panic at {loc}: {msg}");
     }));
 
-    pause::mark_main_thread();
+    // Upper bound for a synchronous line (ms, env FJV_SYNC_TIMEOUT_MS).
+    let sync_timeout = Duration::from_millis(
+        std::env::var("FJV_SYNC_TIMEOUT_MS")
+            .ok()
+            .and_then(|v| v.parse().ok())
+            .unwrap_or(30_000),
+    );
 
     let interp = Arc::new(Interp::new(std::path::PathBuf::from(dir)));
-    let mut workers = Workers {
+    let mut execs = Executors {
         interp: interp.clone(),
         by_id: HashMap::new(),
+        abandoned: vec![],
+        sync_timeout,
     };
 
     for (idx, raw) in text.lines().enumerate() {
@@ -155,14 +250,13 @@ fn run(program: &str, dir: &str) -> i32 {
             // `exit <code>`: simulate a crash without clean shutdown — nothing is
             // dropped, no destructor of the database runs.
             "exit" => {
-                let Some(code) = toks.get(1).and_then(|c| c.parse::<i32>().ok()) else {
-                    emit(lineno, "badop");
-                    continue;
+                let code = match (toks.len(), toks.get(1).and_then(|c| c.parse::<i32>().ok())) {
+                    (2, Some(code)) => code,
+                    _ => {
+                        emit(lineno, "badop");
+                        continue;
+                    }
                 };
-                if toks.len() != 2 {
-                    emit(lineno, "badop");
-                    continue;
-                }
                 emit(lineno, "ok");
                 std::process::exit(code);
             }
@@ -173,42 +267,38 @@ fn run(program: &str, dir: &str) -> i32 {
                     rest = &rest[..rest.len() - 1];
                 }
                 // Needs an id and an operation; thread control itself and `exit`
-                // only make sense on the main thread.
+                // only make sense at top level.
                 if rest.len() < 2 || matches!(rest[1], "thread" | "exit") {
                     emit(lineno, "badop");
                     continue;
                 }
                 let id = rest[0];
-                let op: Vec<String> = rest[1..].iter().map(|s| (*s).to_string()).collect();
                 if is_async {
-                    workers.submit(
+                    execs.submit(
                         id,
                         Job {
                             lineno,
-                            toks: op,
+                            toks: rest[1..].iter().map(|s| (*s).to_string()).collect(),
                             reply: None,
                         },
                     );
                 } else {
-                    let (tx, rx) = mpsc::channel();
-                    workers.submit(
-                        id,
-                        Job {
-                            lineno,
-                            toks: op,
-                            reply: Some(tx),
-                        },
-                    );
-                    let res = rx.recv().unwrap_or_else(|_| "panic worker_died".into());
-                    emit(lineno, &res);
+                    let res = execs.run_sync(id, lineno, &rest[1..]);
+                    emit(lineno, res.as_deref().unwrap_or("err timeout"));
                 }
             }
-            _ => emit(lineno, &interp.exec(&toks, false)),
+            _ => {
+                let res = execs.run_sync(MAIN_ID, lineno, &toks);
+                emit(lineno, res.as_deref().unwrap_or("err timeout"));
+            }
         }
     }
 
     // Join all threads (= wait for outstanding asynchronous operations) …
-    workers.finish();
+    if !execs.finish() {
+        eprintln!("fjv: executor threads are stuck at program end; giving up");
+        std::process::exit(4);
+    }
     // … then shut down cleanly (same drop order as `close`).
     interp.shutdown();
     drop(interp);
